@@ -13,7 +13,7 @@ import random
 ID = "C31"
 LEVEL = "exploration"
 TIERS = {
-    "quick": {"runs": 2400, "wall": 80, "chunk": 20, "shrink_s": 40, "run_cap_s": 60},
+    "quick": {"runs": 2000, "wall": 80, "chunk": 20, "shrink_s": 40, "run_cap_s": 60},
     "thorough": {"runs": 400_000, "wall": 840, "chunk": 50, "shrink_s": 120, "run_cap_s": 60},
 }
 RULE = (
@@ -53,10 +53,12 @@ K_SCHED = 3
 
 
 def preimport():
-    import pennylane  # noqa: F401
+    setup()  # numpy-only warm-up: starts no threads (the runner verifies that before forking)
 
 
 def setup():
+    if _ENV.get("ready"):
+        return
     import warnings
 
     import numpy as np
@@ -89,6 +91,7 @@ def setup():
     dev = qp.device("default.qubit", seed=1)
     t = qp.tape.QuantumScript([qp.RX(0.1, 0), qp.CNOT([0, 1])], [qp.expval(qp.Z(0)), qp.sample(wires=[0])], shots=3)
     dev.execute([t])
+    _ENV["ready"] = True
 
 
 # ------------------------------------------------------------------------------------------------
